@@ -146,6 +146,27 @@ CHECKS = [
   "design_ref": "DESIGN.md §5 C16",
   "note": _TB + "reachability and closure clauses of coherent_b are proved sound only; completeness is covered by the independent Python re-computation.",
   "technique": "Coq proof (verified coherence validator + mirror of the view computation) + exhaustive per-state differential"},
+ {"id": "C08",
+  "text": "Coq theorems on a literal mirror of Parser::lr / lr_upto / apply_repairs with value and span stacks and an action log, for ANY "
+          "validated table and ALL inputs: the log is the post-order of the returned tree, exactly one call per reduction with the "
+          "production's rule, one argument per symbol in order (lexeme / child value) and the parameter; the actions-built tree equals the "
+          "generic tree; the replay copy of the reduce code equals the main one; every call's span is the hull of the lexemes under its node, "
+          "zero-length when there are none (proved for the repaired span computation, refuted by vm_compute for the pinned one; repaired), "
+          "also with recovery for any replayed repair sequence. Tie: recording closures through parse_actions vs the mirror's log, plus an "
+          "independent Python re-computation of post-order and hull spans from the implementation's own log and tree.",
+  "design_ref": "DESIGN.md §5 C08",
+  "note": _TB + "the CPCT+ search itself is not mirrored here: the mirror replays the repair sequence the implementation reports.",
+  "technique": "Coq proof (refinement of the LR interpreter by a mirror with value/span stacks; post-order and hull invariants) + action-log differential"},
+ {"id": "C20",
+  "text": "Coq theorems on a mirror of the size bookkeeping with narrow w n = n mod 2^w: for the repaired guards, passing the guards implies "
+          "no reported size or index wraps (guards_imply_no_wrap), observations are width-independent, and the grammar guards refuse nothing "
+          "that fits (exactness); the pinned guards are refuted at the 2^w boundary classes (repaired); state-count guards and the lexer "
+          "rule-id guard characterised exactly. Tie: generated grammars and lexers with counts at 2^8-6..2^8+1 (and 2^16) built with "
+          "u8/u16/u32 in release and debug: refusal class, which guard refuses and every reported size vs the mirror, and transcripts "
+          "(canonically renumbered) equal across accepting widths.",
+  "design_ref": "DESIGN.md §5 C20",
+  "note": _TB + "equality of table contents and parse results across widths is carried by the differential run, not by a theorem (partial).",
+  "technique": "Coq proof (modular-arithmetic model of the width guards) + boundary-configuration differential across storage widths"},
 ]
 
 _PENDING = "check not built yet in this round (work in progress; see DESIGN.md §10 build order)"
